@@ -221,7 +221,10 @@ def run(tier: str) -> Run:
         if name in NO_DTYPE_CONTRACT:
             continue
         scalars = [p for p, s in specs.items() if s.kind == 'scalar']
-        for combo in itertools.product(grid_choices, repeat=len(scalars)):
+        # kernels whose precision is chosen from two data operands: 32-bit integers next to single precision are in the quick grid
+        # too (same width, different precision class)
+        choices = ('float64', 'float32', 'int64', 'int32') if len(DATA_OPERANDS.get(name, ())) > 1 else grid_choices
+        for combo in itertools.product(choices, repeat=len(scalars)):
             dt = dict(zip(scalars, combo, strict=True))
             n_grid += 1
             inst = f'{name}[' + ','.join(f'{p}={d}' for p, d in dt.items()) + ']'
@@ -288,5 +291,11 @@ def run(tier: str) -> Run:
             continue
         r5.check(worst is None, name, loc(fi), {'unit_assignments': n_runs, 'power_products_bounded': n_products, 'worst': worst},
                  key=f'conversion.tof:{name}:f32-range')
+    # R6: the unit and dtype of a result do not depend on what was converted before
+    r6 = run.rule('R6', 'unit and dtype of a result do not depend on call history: two-call histories of the conversion kernels in one world '
+                        '(other units, other precision, both at once, another kernel first, the same variables updated in place)', 11)
+    from .common import history_free, kernel_histories
+    kfis = [repo.func('conversion.tof', n) for n in DATA_OPERANDS if n in TOF_UNITS]
+    history_free(repo, kfis, r6, histories=kernel_histories(repo, kfis))
     run.exhaustive = tier == 'thorough'
     return run
